@@ -798,11 +798,14 @@ def paths_under (repo, module, g, env, start, stops, cls=None, limit=200, track=
       ne = Env(dict(e.exact), list(e.matchers), e.call_hook)
       try: e.call_hook(n.ast.value, ne)
       except Exception: pass
+    fan = sum(1 for m, l in succ if l != 'exc')
     for m, l in succ:
       if l == 'exc': continue
       key = (n.id, m.id)
       if key in used: continue
-      stack.append((m, path + (m,), ne, used | {key}, loops))
+      # an on_node callback may keep per-path records in the environment: the branches of a fork get environments of their own
+      ne_m = Env(dict(ne.exact), list(ne.matchers), getattr(ne, 'call_hook', None)) if (on_node is not None and fan > 1) else ne
+      stack.append((m, path + (m,), ne_m, used | {key}, loops))
   return out
 
 def _bind_target (tgt, val, env):
